@@ -253,23 +253,36 @@ def queries(tier):
                     covers=["start_done", "repeated_start_done", "stop_done", "stretched_bit", "write_bit3", "read_bit3",
                             "start_then_write"],
                     desc="period_cyc=4: controller strobes, data, target SCL (stretching) and SDA free every cycle"))
-    # layer B: one whole transfer.  The operation requested in cycle 1 is free (any of the four, data free), later
-    # requests are possible again from cycle 100 on; the target never stretches, its SDA is free.
-    KB = 124 if quick else 150
-    lay = _only_at(set([1]) | set(range(100, 200)))
-    lay["tgt_scl"] = 1
-    qs.append(Query("bmc_one_transfer", f4, KB, timeout=900, layer=lay,
-                    covers=["write_acked", "write_nacked", "read_done"],
-                    hints={"write_acked": {"start": 0, "stop": 0, "read": 0},
-                           "write_nacked": {"start": 0, "stop": 0, "read": 0},
-                           "read_done": {"start": 0, "stop": 0, "write": 0}},
-                    desc="layer: requests only in cycle 1 and from cycle 100 on (kind/data free), no clock stretching, target "
-                         "SDA free: a complete write or read (all 9 clocks, ack, data) and the operation after it"))
+    # layer B (restricted, cheap): exactly one request, in cycle 1, of a fixed kind; data, ack_i and the target's SDA
+    # free in every cycle; no stretching.  Depth = the whole 9-clock transfer (completes in cycle 111).
+    for kind, asserts, covers in (
+            ("write", ["write_bits", "write_release", "write_ack", "nine_clocks", "sda_change"], ["write_acked", "write_nacked"]),
+            ("read", ["read_release", "read_data", "read_ack", "nine_clocks", "sda_change"], ["read_done"])):
+        lay = {n: 0 for n in STROBES}
+        lay[kind] = (lambda t: None if t == 1 else 0)
+        lay["tgt_scl"] = 1
+        qs.append(Query(f"bmc_single_{kind}", f4, 116, timeout=900, layer=lay, asserts=asserts, covers=covers,
+                        desc=f"layer: a single {kind} requested in cycle 1 (data/ack_i free), no stretching, target SDA free in "
+                             "every cycle: the complete 9-clock transfer"))
+    # layer B2: one whole transfer with a free kind and whatever operation follows it.  The operation requested in
+    # cycle 1 is free (any of the four, data free), later requests are possible again from cycle 100 on; the target
+    # never stretches, its SDA is free.
+    if not quick:
+        lay = _only_at(set([1]) | set(range(100, 200)))
+        lay["tgt_scl"] = 1
+        qs.append(Query("bmc_one_transfer", f4, 130, timeout=900, layer=lay,
+                        covers=["write_acked", "write_nacked", "read_done"],
+                        hints={"write_acked": {"start": 0, "stop": 0, "read": 0},
+                               "write_nacked": {"start": 0, "stop": 0, "read": 0},
+                               "read_done": {"start": 0, "stop": 0, "write": 0}},
+                        desc="layer: requests only in cycle 1 and from cycle 100 on (kind/data free), no clock stretching, "
+                             "target SDA free: a complete write or read (all 9 clocks, ack, data) and the operation after it"))
     # layer C: the same with the target stretching freely during the first 50 cycles
     if not quick:
         lay = _only_at(set([1]) | set(range(120, 200)))
         lay["tgt_scl"] = (lambda t: None if t < 50 else 1)
-        qs.append(Query("bmc_one_transfer_stretch", f4, 150, timeout=900, layer=lay, covers=["write_acked", "read_done"],
+        qs.append(Query("bmc_one_transfer_stretch", f4, 150, timeout=900, required=False, layer=lay,
+                        covers=["write_acked", "read_done"],
                         hints={"write_acked": {"start": 0, "stop": 0, "read": 0},
                                "read_done": {"start": 0, "stop": 0, "write": 0}},
                         desc="layer: request in cycle 1 (free kind), target stretches freely in the first 50 cycles; "
@@ -277,7 +290,7 @@ def queries(tier):
         # start; transfer: request kinds free at cycle 1 and cycle 14.. (after a START has completed)
         lay = _only_at(set([1]) | set(range(12, 20)))
         lay["tgt_scl"] = 1
-        qs.append(Query("bmc_start_transfer", f4, 140, timeout=900, layer=lay, covers=["write_acked"],
+        qs.append(Query("bmc_start_transfer", f4, 130, timeout=900, required=False, layer=lay, covers=["write_acked"],
                         hints={"write_acked": {"stop": 0, "read": 0}},
                         desc="layer: requests only in cycles 1 and 12-19: START (or anything) followed by a complete transfer"))
         f8 = lambda: I2CHarness(8)
